@@ -4,7 +4,8 @@ import ast
 from .. import AnalysisError
 from ..effects import is_finish, is_gone, gone_key, is_cache_remove, is_enq_send, is_enq_lease
 from ..index import walk_local
-from ..interp import AVal
+from ..interp import AVal, const
+from ..effects import strip_epoch
 from . import COMMON_ASSUMPTIONS
 from .handlers import model, H_TERM
 from .c07 import init_bools, _st
@@ -18,7 +19,7 @@ EXPLANATION = (
     'second one must remove the entry. Also: finish_stream clears the stream table and the reassembly cache under '
     'the same id; the fire-and-forget id is released by the sent-future callback; an invalid initial_request_n '
     'releases the id before raising. Not decided: emptiness of both tables at quiescence as a run-time observation.')
-EXPLANATION_ADDED = ('Closing one direction of a channel from the open state does not release the stream (unless the same event closes both).')
+EXPLANATION_ADDED = ('Closing one direction of a channel from the open state does not release the stream (unless the same event closes both). A channel endpoint given no application subscriber counts its inbound direction as complete on every path of subscribe(None).')
 EXPLANATION = EXPLANATION.replace(' Not decided', ' ' + EXPLANATION_ADDED + ' Not decided', 1) \
     if ' Not decided' in EXPLANATION else EXPLANATION + ' ' + EXPLANATION_ADDED
 ASSUMPTIONS = COMMON_ASSUMPTIONS
@@ -244,4 +245,51 @@ def rule_e(ctx):
                                                  'rsocket.queue_peekable'], 'connection and stream state')
 
 
-RULES = [('C10.a', rule_a), ('C10.b', rule_b), ('C10.c', rule_c), ('C05.a', rule_order), ('C03.c', rule_d), ('C10.d', rule_e)]
+def rule_no_subscriber(ctx):
+    """A channel endpoint whose application gives it no subscriber has nobody to deliver the inbound direction to:
+    `subscribe(None)` must count that direction as complete on every path, otherwise the stream needs the peer's
+    COMPLETE - which nothing ever asks for - to be released."""
+    rep = ctx.report
+    common = ctx.repo.cls('rsocket.handlers.request_cahnnel_common:RequestChannelCommon')
+    n = 0
+    inbound_seen = set()
+    for k in sorted(ctx.repo.concrete_subclasses(common, include_self=False), key=lambda c: c.name):
+        f = k.lookup('subscribe')
+        if f is None:
+            raise AnalysisError('C10.a: %s.subscribe vanished' % k.name)
+        params = f.params()[1:]
+        if not params:
+            raise AnalysisError('C10.a: %s.subscribe takes no subscriber' % k.name)
+        ps = [p for p in ctx.paths(f, k, args={params[0]: const(None)}, inline_depth=3) if p.outcome == 'return']
+        # the two direction flags: what the both-closed test reads
+        fin = k.lookup('_finish_if_both_closed')
+        if fin is None:
+            raise AnalysisError('C10.a: %s._finish_if_both_closed vanished' % k.name)
+        flags = {n_.attr for t in walk_local(fin.node) if isinstance(t, ast.If) for n_ in ast.walk(t.test)
+                 if isinstance(n_, ast.Attribute) and isinstance(n_.value, ast.Name) and n_.value.id == 'self'}
+        if len(flags) != 2:
+            raise AnalysisError('C10.a: the both-closed test of %s reads %d flags' % (k.name, len(flags)))
+        ok = bool(ps)
+        singles = set()
+        for p in ps:
+            marks = {e.data['target'][2] for e in p.events if e.kind == 'store' and e.data['target'][0] == 'attr' and
+                     e.data['target'][2] in flags and strip_epoch(e.data['value'].term) == ('const', True)}
+            if not marks:
+                ok = False
+            if len(marks) == 1:
+                singles |= marks
+        if len(singles) > 1:
+            ok = False
+        inbound_seen |= singles
+        n += 1
+        rep.add('C10.a', '%s.subscribe / without a subscriber the inbound direction counts as complete' % k.name, f,
+                ok, 'every path with subscriber None marks the receive side complete (%d paths)' % len(ps) if ok else
+                'subscribe(None) can leave the receive side open: the stream stays registered until the peer '
+                'completes a direction nobody listens to')
+    rep.require('C10.a', 'channel endpoint classes', n, 2)
+    if len(inbound_seen) > 1:
+        rep.bad('C10.a', 'channel subscribe(None) / one inbound flag', common,
+                'requester and responder mark different flags (%s)' % sorted(inbound_seen))
+
+
+RULES = [('C10.a', rule_a), ('C10.b', rule_b), ('C10.c', rule_c), ('C05.a', rule_order), ('C03.c', rule_d), ('C10.d', rule_e), ('C10.a', rule_no_subscriber)]
